@@ -240,6 +240,9 @@ Record state := {
 
 Inductive conn_event :=
 | EvRequest (target : list N)     (* a well-formed request arrives *)
+| EvOversize (code : N)           (* a request beyond the HTTP layer's own limits (head size, target length,
+                                     header count): hyper answers an error status itself, the service is not
+                                     called, and the connection ends *)
 | EvGarbage                       (* bytes hyper cannot parse: serve_connection ends with an error *)
 | EvReset                         (* the peer resets the connection *)
 | EvIdle                          (* nothing arrives (half-open) *)
@@ -272,6 +275,9 @@ Definition step (s : state) (e : event) : state * option resp :=
             match ev with
             | EvRequest t => (s, Some (respond (c_allowed c) t (st_render s)))
             | EvIdle => (s, None)
+            | EvOversize code =>
+                ({| st_allow := st_allow s; st_listening := st_listening s; st_render := st_render s;
+                    st_next := st_next s; st_conns := close_conn id (st_conns s) |}, Some (code, []))
             | EvGarbage | EvReset | EvClose =>
                 ({| st_allow := st_allow s; st_listening := st_listening s; st_render := st_render s;
                     st_next := st_next s; st_conns := close_conn id (st_conns s) |}, None)
